@@ -42,7 +42,7 @@ THEOREMS = ['rsa_size_general', 'bitLen_mono', 'ed25519_size', 'ed448_size', 'ce
             'repaired_witness', 'ed448_rated_small']
 # functions of the code whose Lean definitions are regenerated from the source on every run (harness/translate_logic.py); `GenLogic.<name>_eq_model`
 # (lean/SshAudit/Props/GenLogic*.lean) ties each to the hand-written model function the theorems above are about
-GEN_LOGIC = ['adjust_key_size']
+GEN_LOGIC = ['adjust_key_size', 'hostkey_comments']
 TECHNIQUE = ('Lean 4 theorems (byte-level parser vs. independently written RFC encoders, arithmetic by omega, fold invariants for an arbitrary server state machine) '
              '+ differential correspondence with KexDH.recv_reply, HostKeyTest.perform_test/run over scripted servers and output() in text/verbose/JSON mode')
 LEVEL_TEXT = ('Sizes: the byte-level parser of the model is proved against independently written RFC 4251/4253/8709/5656 and PROTOCOL.certkeys encoders for every exponent, modulus, '
